@@ -7,11 +7,11 @@ DST="${1:-/tmp/leanprobe}"
 mkdir -p "$DST" && cd "$DST"
 [ -d Probe ] || lake new Probe lib >/dev/null 2>&1
 cd Probe
-for f in Proc ProcProofs Rfh Inst1 Inst1Proofs Pres Inst2 Trace Trace2 Isolated Accuracy Inst3 Net Agree Cmd1 Cmd1Proofs Cmd2 Formula Stats StatsProofs; do
+for f in Proc ProcProofs Rfh Inst1 Inst1Proofs Pres Inst2 Trace Trace2 Isolated Accuracy Inst3 Net Agree Cmd1 Cmd1Proofs Cmd2 Formula Stats StatsProofs Rules RulesProofs; do
   cp "$HERE/$f.lean" Probe/
 done
 cp "$HERE"/Driver*.lean .
 # modules that can be imported together (Inst1/Inst2/Cmd1/Cmd2 define clashing global names and are built separately)
 printf 'import Probe.Proc\nimport Probe.ProcProofs\nimport Probe.Rfh\n' > Probe.lean
-lake build Probe Probe.Inst1Proofs Probe.Pres Probe.Accuracy Probe.Net Probe.Agree Probe.Cmd1Proofs Probe.Cmd2 Probe.Formula Probe.StatsProofs
+lake build Probe Probe.Inst1Proofs Probe.Pres Probe.Accuracy Probe.Net Probe.Agree Probe.Cmd1Proofs Probe.Cmd2 Probe.Formula Probe.StatsProofs Probe.RulesProofs
 echo "built in $DST/Probe"
